@@ -32,7 +32,7 @@ def obligations(tier):
                   funcs=("chartparse.instrument.InstrumentTrack.from_chart_lines",), bounds="2 note lines in arbitrary tick order: ValueError or correct times"))
     obs.append(Ob("C11.constructor_hints", "CH", "harness.h_events", "constructor_dataflow", 300, {"VF_KIND": 2}, funcs=("chartparse.instrument.TrackEvent.from_parsed_data",)))
     obs += _ned("C11.note_event_dataflow", tier, ("chartparse.instrument.NoteEvent.from_parsed_data",), quick=("0,1", "1,5"))
-    obs += _sync_section("C11", ["0,2,1"]) + [_two_maps("C11")] + _e2e("C11", [3] if tier == "quick" else [3, 7])
+    obs += _sync_section("C11", ["0,2,1"]) + [_two_maps("C11")] + _e2e("C11", [0] if tier == "quick" else [0, 7], split=(7,))
     return obs
 
 LEVEL_TEXT = ("Bounded symbolic execution (CrossHair/z3) of the real lookup and constructor code: for every "
